@@ -24,9 +24,12 @@ FN_STR = [{"Ref": "P1"}, {"Fn::Sub": "${AWS::Region}-x"}, {"Fn::GetAtt": ["Res",
           {"Fn::FindInMap": ["M", "k1", "s"]},
           # references that CANNOT be resolved: the placeholder text must be accepted wherever text is (seeded change C03-r4m2 typed
           # DeletionPolicy as a Literal, so UNDEFINED_PARAM_... made resolve() raise)
-          {"Ref": "NoSuchParameter"}, {"Fn::FindInMap": ["M", "no-such-key", "s"]}, {"Fn::Sub": "${NotBound}-x"}]
+          {"Ref": "NoSuchParameter"}, {"Fn::FindInMap": ["M", "no-such-key", "s"]}, {"Fn::Sub": "${NotBound}-x"},
+          # values that begin or end with blanks: text is text, nothing trims it (seeded change C01-r6Cm2: str_strip_whitespace on one class)
+          {"Fn::Join": [" ", ["Signing key for", ""]]}, {"Fn::Select": [1, {"Fn::Split": [",", "A, B"]}]}, {"Fn::Sub": "\tx${AWS::Region}\n"},
+          {"Fn::Join": ["", [" ", {"Ref": "P1"}, " "]]}]
 STRS = ["a", "b", "prod", "x-y", "my bucket", "arn:aws:s3:::b", "", "é中", "x€y", "7", "0", "true", "False", "1.5", "None",
-        "2012-10-17", "10.0.0.0/8", "{\"a\": 1}", "*", "s3:Get*", "AWS::S3::Bucket", "null"]
+        "2012-10-17", "10.0.0.0/8", "{\"a\": 1}", "*", "s3:Get*", "AWS::S3::Bucket", "null", " lead", "trail ", "\ttab\n", " "]
 NET4 = ["10.0.0.0/8", "10.1.2.3/8", "0.0.0.0/0", "192.168.1.1", "172.16.0.0/12", "1.2.3.4/32", "10.0.0.0/255.0.0.0", "100.64.0.0/10",
         "10.0.0.0/0.255.255.255", "8.8.8.8/31", "203.0.113.0/24"]
 NET6 = ["::/0", "2001:db8::/32", "2001:db8::1/32", "fe80::1", "::1/128", "2001:0db8:0000:0000:0000:0000:0000:0001/64",
@@ -69,9 +72,9 @@ class Gen:
         r = self.r
         self.bump(kind)
         if kind == "str":
-            return r.choice(STRS) if self.rich else r.choice(STRS[:6])
+            return r.choice(STRS) if self.rich else r.choice(STRS[:6] + [" lead", "trail "])
         if kind == "strnum":
-            return r.choice(STRS[:6] + ([5, 0, 1.5, -3, "7"] if self.rich else []))
+            return r.choice(STRS[:6] + [" lead", "trail "] + ([5, 0, 1.5, -3, "7"] if self.rich else []))
         if kind == "int":
             return r.choice(INTS) if self.rich else r.choice(INTS[:5])
         if kind == "posint":
